@@ -19,7 +19,7 @@ class ArrayUfunc(Family):
     qualname = "npstructures.raggedarray:RaggedArray.__array_ufunc__"
     serves = ["C04", "C10"]
     assumed = ["element-wise ufunc on flat arrays: r[j] = U(a[j], b[j]) (uninterpreted U)",
-               "callee contract RaggedArray._broadcast_rows(column): flat[S(r)+c] = column[r] (bounded stand-in for _raw_broadcast)",
+               "callee contract RaggedArray._broadcast_rows(column): flat[S(r)+c] = column[r] (proved: RaggedShape.broadcast_values / _raw_broadcast)",
                "lemma: equal row lengths => equal row starts"]
 
     def kinds(self):
